@@ -558,7 +558,11 @@ func (c *Compiler) mapKeyCode(typ *runtime.Type) (Code, error) {
 func (c *Compiler) mapValueCode(typ *runtime.Type) (Code, error) {
 	switch typ.Kind() {
 	case reflect.Map:
-		return c.ptrCode(runtime.PtrTo(typ))
+		if !c.implementsMarshalJSON(typ) && !c.implementsMarshalText(typ) {
+			return c.ptrCode(runtime.PtrTo(typ))
+		}
+		// a map type with marshal methods is encoded by them, like any other marshaler
+		fallthrough
 	default:
 		code, err := c.typeToCodeWithPtr(typ, false)
 		if err != nil {
@@ -702,6 +706,11 @@ func (c *Compiler) structFieldCode(structCode *StructCode, tag *runtime.StructTa
 		switch code.Kind() {
 		case CodeKindPtr, CodeKindInterface:
 			fieldCode.isNextOpPtrType = true
+		case CodeKindMarshalJSON, CodeKindMarshalText:
+			if fieldType.Kind() == reflect.Map {
+				// the methods of a map type are called for a nil map too
+				fieldCode.isNilCheck = false
+			}
 		}
 		fieldCode.value = code
 	}
